@@ -125,11 +125,13 @@ def pixEq (org : String) (a b : Nat) : Bool :=
     iterators (the overload per plane), raw pointers to a trivially copyable packed pixel (libstdc++'s memmove); flipped left-right /
     subsampled / transposed views have step iterators, bit-aligned views have bit iterators: the forward element loop -/
 def ptrKind (k : String) : Bool := k == "full" || k == "sub" || k == "flipy"
-/-- whole-view run (both 1-D traversable): `copier_n<I,O>` -> std::copy with GIL's overloads -/
-def blockMove1d (org sk dk : String) : Bool := !isBits org && ptrKind sk && ptrKind dk
+/-- whole-view run (both 1-D traversable): `copier_n<I,O>` -> std::copy with GIL's overloads (memmove for pixel<T,CS>*, per plane for planar
+    pointers, libstdc++'s memmove for packed pixels); flag bit 3 of the op line = observed on a probe op of this organisation.  Step iterators
+    and bit-aligned iterators are element loops. -/
+def blockMove1d (pf : Nat) (sk dk : String) : Bool := pf / 8 % 2 == 1 && ptrKind sk && ptrKind dk
 /-- row runs go through detail::copy_n (utilities.hpp), whose qualified std::copy does not see GIL's overloads: only libstdc++'s memmove for
-    trivially copyable pixels (packed_pixel) is a block move -/
-def blockMoveRow (org sk dk : String) : Bool := org == "rgb565" && ptrKind sk && ptrKind dk
+    trivially copyable pixels (packed_pixel) is a block move; flag bit 4 = observed on a probe op of this organisation -/
+def blockMoveRow (pf : Nat) (sk dk : String) : Bool := pf / 16 % 2 == 1 && ptrKind sk && ptrKind dk
 
 /-- NoHazard of Props/C04, decided on the op's views -/
 def noHazard (s d : View) : Bool :=
@@ -150,7 +152,7 @@ def model (line : String) : String :=
     match o.alg with
     | "copyov" =>
       let mu := memOf [(o.s2, o.sv)]
-      "frame=ok ;" ++ showVals (implCopyOv (blockMove1d o.sorg o.sk o.dk) (blockMoveRow o.sorg o.sk o.dk) mu o.s o.d) o.s2
+      "frame=ok ;" ++ showVals (implCopyOv (blockMove1d o.pf o.sk o.dk) (blockMoveRow o.pf o.sk o.dk) mu o.s o.d) o.s2
     | "ufill" => fin "" (implUninitFill m0 o.d o.arg)
     | "ucopy" => fin "" (implUninitCopy (isBits o.dorg && !(ptrKind o.sk && ptrKind o.dk) && o.pf / 4 % 2 == 0) m0 o.s o.d)
     | "dcons" =>
@@ -169,11 +171,12 @@ def model (line : String) : String :=
     | "imgeq" => let e := implImageEq m0 o.s o.d (pixEq o.dorg); fin (if e then " eq=1 ne=0" else " eq=0 ne=1") m0
     | "foreach" | "foreachpos" =>
       -- for_each_pixel(_position): the functor sees the pixels in the traversal order of the code and adds `arg`
-      let order := if o.alg == "foreach" then implFillAddrs o.d else specAddrs o.d
+      let order := if o.alg == "foreach" then implFillAddrs o.d else implPosAddrs o.d      -- foreachpos: the walking locator
       let (m, log) := order.foldl (fun (acc : Mem × List Nat) a => (acc.1.set a ((acc.1.get a + o.arg) % R), acc.1.get a :: acc.2)) (m0, [])
       fin (" log=" ++ ",".intercalate (log.reverse.map toString)) m
     | "generate" | "genx" => fin "" (implGenerate m0 o.d (fun k => (o.arg + k) % R))
-    | "tr1" | "trpos" | "tr1x" => fin "" (implTransform m0 o.s o.d (fun v => (v * 3 + o.arg) % R))
+    | "tr1" | "tr1x" => fin "" (implTransform m0 o.s o.d (fun v => (v * 3 + o.arg) % R))
+    | "trpos" => fin "" (implTransformPos m0 o.s o.d (fun v => (v * 3 + o.arg) % R))
     | "tr2" => fin "" (implTransform2 m0 o.s o.s2 o.d (fun p q => (p + 2 * q + o.arg) % R))
     | _ => "bad-op"
 
